@@ -171,10 +171,14 @@ def expected(kind, cls_key, stage, seed=7):
     return _MEMO[(kind, cls_key, stage, seed)]
 
 
-def _data_fingerprint(setup, kind):
+def _fp(data, kind):
     if kind == "single":
-        return setup.data.tobytes()
-    return b"".join(d["ref"].tobytes() + d["mov"].tobytes() for d in setup.data)
+        return np.ascontiguousarray(data).tobytes()
+    return b"".join(np.ascontiguousarray(d["ref"]).tobytes() + np.ascontiguousarray(d["mov"]).tobytes() for d in data)
+
+
+def _data_fingerprint(setup, kind):
+    return _fp(setup.data, kind)
 
 
 # ---------------------------------------------------------------------------
@@ -190,7 +194,8 @@ def judge_history(case):
     setups = [_new_setup(kind, seeds[i]) for i in range(nset)]
     fps = [_data_fingerprint(s_, kind) for s_ in setups]
     objs = {n: _new_alg(kind, ck, n, wp) for n, (ck, wp, _) in algs_spec.items()}
-    model = {n: {"added": False, "ran": False, "mpe": False} for n in objs}
+    model = {n: {"added": False, "ran": False, "mpe": False, "bound": None, "orig": True} for n in objs}
+    prepped = [False] * nset
     ran_classes = set()
     j.tag(kind)
 
@@ -199,6 +204,12 @@ def judge_history(case):
         for n, a in objs.items():
             m = model[n]
             ck = algs_spec[n][0]
+            if m["bound"] is not None:
+                # an algorithm keeps the data (and sampling frequency) it was given when it was added
+                j.check(_fp(a.data, kind) == m["bound"][0] and a.fs == m["bound"][1], "binding-changed",
+                        lambda: f"after step {step} ({what}): algorithm {n} is no longer bound to the data/fs it was added with")
+            if m["ran"] and not m["orig"]:
+                continue  # bound to preprocessed data: no isolated reference for that state
             if not m["ran"]:
                 j.check(a.result is None, "result-without-run", lambda: f"after step {step} ({what}): algorithm {n} has a result although it never ran successfully")
                 continue
@@ -222,7 +233,18 @@ def judge_history(case):
                     return j
             for n in names:
                 model[n]["added"] = True
+                st_ = setups[algs_spec[n][2]]
+                model[n]["bound"] = (_fp(st_.data, kind), st_.fs)
+                model[n]["orig"] = not prepped[algs_spec[n][2]]
             check_all(step, f"add {names}")
+        elif kindop == "prep":
+            si = op[1] % nset
+            r = sut(setups[si].detrend_data) if op[2] == "detrend" else sut(setups[si].decimate_data, q=2)
+            if not j.check(not raised(r), "prep-raises", lambda: f"{r!r}"):
+                return j
+            prepped[si] = True
+            fps[si] = _data_fingerprint(setups[si], kind)
+            check_all(step, f"{op[2]} on setup {si}")
         elif kindop == "run":
             n = op[1]
             setup = setups[algs_spec[n][2]] if n in objs else setups[0]
@@ -306,7 +328,10 @@ def machine_case(draw, kind):
     if draw(st.integers(0, 4)) != 0:  # most histories start by adding everything (construction: makes multi-algorithm runs likely)
         ops.append(["add", list(names)])
     for _ in range(draw(st.integers(2, 8))):
-        o = draw(st.sampled_from(["add", "run", "run", "run", "run_all", "run_all", "mpe", "mpe", "unknown"]))
+        o = draw(st.sampled_from(["add", "add", "run", "run", "run", "run_all", "run_all", "mpe", "mpe", "unknown", "prep"]))
+        if o == "prep":
+            ops.append(["prep", draw(st.integers(0, 1)), draw(st.sampled_from(["detrend", "decimate"]))])
+            continue
         if o == "add":
             ops.append(["add", draw(st.lists(st.sampled_from(names), min_size=1, max_size=k, unique=True))])
         elif o == "run":
@@ -341,8 +366,14 @@ def judge_pickle(case):
         elif op[0] == "mpe" and op[1] in objs:
             mk = (POOL_SINGLE if kind == "single" else POOL_MS)[case["algs"][op[1]][0]][2]
             sut(setup.mpe, op[1], sel_freq=list(SEL), **mk)
+        elif op[0] == "prep":
+            sut(setup.detrend_data) if op[2] == "detrend" else sut(setup.decimate_data, q=2)
     with tempfile.TemporaryDirectory() as d:
         path = os.path.join(d, "setup.pkl")
+        # an earlier state saved to (and loaded from) the same path must not shadow the later one
+        early = _new_setup(kind, case.get("seed", 7))
+        sut(gen.save_to_file, early, path)
+        sut(gen.load_from_file, path)
         r = sut(gen.save_to_file, setup, path)
         if not j.check(not raised(r), "save-raises", lambda: f"{r!r}"):
             return j
